@@ -236,10 +236,10 @@ func runC01(r *mc.Run) {
 			cases = append(cases, &c01Case{Voters: n, Kind: kind, Marks: all, BitmapLen: 8, Signers: fullSigners})
 			if n >= 1 {
 				cases = append(cases,
-					&c01Case{Voters: n, Kind: kind, Marks: all, BitmapLen: 8, Signers: fullSigners[:n]},                 // one signer missing
-					&c01Case{Voters: n, Kind: kind, Marks: all[:n-1], BitmapLen: 8, Signers: fullSigners},               // extra signer
+					&c01Case{Voters: n, Kind: kind, Marks: all, BitmapLen: 8, Signers: fullSigners[:n]},                                         // one signer missing
+					&c01Case{Voters: n, Kind: kind, Marks: all[:n-1], BitmapLen: 8, Signers: fullSigners},                                       // extra signer
 					&c01Case{Voters: n, Kind: kind, Marks: append(append([]int{}, all[:n-1]...), n+36), BitmapLen: 8, Signers: fullSigners[:n]}, // mark beyond the list replaces a signature
-					&c01Case{Voters: n, Kind: kind, Marks: nil, BitmapLen: 8, Signers: []int{0}},                        // proposer alone
+					&c01Case{Voters: n, Kind: kind, Marks: nil, BitmapLen: 8, Signers: []int{0}},                                                // proposer alone
 				)
 			}
 		}
